@@ -92,7 +92,7 @@ func GenIter(r *simrt.Rand, excl IterExclude) *IterProg {
 		return genPipeline(r)
 	}
 	p := &IterProg{}
-	nops := 3 + r.Intn(10)
+	nops := 3 + r.Intn(10*Scale)
 	pickFrom := func(list []string, prefix string) string {
 		for tries := 0; tries < 20; tries++ {
 			x := list[r.Intn(len(list))]
